@@ -4,6 +4,7 @@ import os
 import random
 import sys
 import tempfile
+import time
 import types
 
 from pyvc.contract import bounded
@@ -215,3 +216,196 @@ def backend_grid(tier, seed, only=None):
         os.environ.update(saved_env)
         importlib.import_module = real_import
     return dict(evaluations=n, distinct_nontrivial=len(seen), failures=fails[:20], exhaustive=True)
+
+
+# ====================================================================== C18
+def _encode_ref(kind, rng):
+    """independent reference encoding (MIDI 1.0) of a random message: returns (Message, bytes)"""
+    import mido
+    if kind == 'note':
+        ch, n, v = rng.randrange(16), rng.randrange(128), rng.randrange(128)
+        return mido.Message('note_on', channel=ch, note=n, velocity=v), bytes([0x90 | ch, n, v])
+    if kind == 'pc':
+        ch, p = rng.randrange(16), rng.randrange(128)
+        return mido.Message('program_change', channel=ch, program=p), bytes([0xC0 | ch, p])
+    if kind == 'pitch':
+        ch, p = rng.randrange(16), rng.randrange(-8192, 8192)
+        return mido.Message('pitchwheel', channel=ch, pitch=p), bytes([0xE0 | ch, (p + 8192) & 0x7F, (p + 8192) >> 7])
+    if kind == 'sysex':
+        data = [rng.randrange(128) for _ in range(rng.choice([0, 1, 2, 5, 40]))]
+        return mido.Message('sysex', data=data), bytes([0xF0] + data + [0xF7])
+    if kind == 'songpos':
+        p = rng.randrange(16384)
+        return mido.Message('songpos', pos=p), bytes([0xF2, p & 0x7F, p >> 7])
+    return mido.Message('clock'), bytes([0xF8])
+
+
+@bounded('socket-stream-cuts', ('C18',), 'real SocketPort over a real socketpair: 60 (1000 thorough) random message sequences of length 1..6 (note_on, program_change, pitchwheel, '
+         'sysex 0..40 bytes, songpos, clock) x EVERY cut offset 0..total length x 2 random segmentations of the bytes before the cut (receiver polled between '
+         'segments); peer then closes; plus close-seen-by-peer, a real PortServer with 3 TCP clients on the loopback interface, and an address grid')
+def socket_cuts(tier, seed, only=None):
+    import socket
+    import threading
+    import mido
+    from mido.sockets import SocketPort, PortServer, connect, format_address, parse_address
+    rng = random.Random(seed)
+    fails, n, seen = [], 0, set()
+
+    def run_iteration(port, out):
+        try:
+            for m in port:
+                out.append(m)
+            out.append('END')
+        except BaseException as ex:       # noqa
+            out.append(('EXC', repr(ex)))
+
+    for trial in range(60 if tier == 'quick' else 1000):
+        if len(fails) >= 3:
+            break                        # enough (a hanging iteration costs its whole time-out each time)
+        pairs = [_encode_ref(rng.choice(['note', 'pc', 'pitch', 'sysex', 'songpos', 'clock']), rng) for _ in range(rng.randrange(1, 7))]
+        data = b''.join(b for _, b in pairs)
+        ends, acc = [], 0
+        for _, b in pairs:
+            acc += len(b)
+            ends.append(acc)
+        for cut in range(len(data) + 1):
+            if len(fails) >= 3:
+                break
+            want = [m for (m, _), e in zip(pairs, ends) if e <= cut]
+            for rep in range(2):
+                n += 1
+                seen.add((trial, cut, rep))
+                a, b = socket.socketpair()
+                port = SocketPort('peer', 1, conn=a)
+                got = []
+                try:
+                    pos = 0
+                    while pos < cut:
+                        step = min(cut - pos, rng.choice([1, 1, 2, 3, 7, 1000]))
+                        b.sendall(data[pos:pos + step])
+                        pos += step
+                        if rng.random() < 0.7:
+                            try:
+                                got.extend(port.iter_pending())
+                            except Exception as ex:       # noqa
+                                got.append(('EXC', repr(ex)))
+                    b.close()
+                    rest = []
+                    t = threading.Thread(target=run_iteration, args=(port, rest), daemon=True)
+                    t.start()
+                    t.join(5)
+                    problems = []
+                    if t.is_alive():
+                        problems.append('iteration did not end after the peer disconnected')
+                    elif rest[-1:] != ['END']:
+                        problems.append('iteration ended with %r' % (rest[-1:],))
+                    got.extend(x for x in rest if isinstance(x, mido.Message))
+                    if [str(x) for x in got] != [str(x) for x in want] or any(not isinstance(x, mido.Message) for x in got):
+                        problems.append('delivered %r, complete before the cut were %r' % (got, want))
+                    if not t.is_alive() and not port.closed:
+                        problems.append('port does not report itself closed')
+                    if problems:
+                        fails.append(dict(clause='exactly the completely arrived messages, then a clean end', inputs=dict(seed=seed, trial=trial, cut=cut, stream=data.hex()), detail='; '.join(problems)[:400]))
+                finally:
+                    port.close()
+                    b.close()
+    # closing a socket port is seen by its peer as a disconnect
+    for _ in range(3):
+        n += 1
+        a, b = socket.socketpair()
+        port = SocketPort('peer', 1, conn=a)
+        del a
+        port.send(mido.Message('note_on'))
+        port.close()
+        b.settimeout(5)
+        try:
+            first = b.recv(10)
+            eof = b.recv(10)
+            if first != bytes([0x90, 0, 64]) or eof != b'':
+                fails.append(dict(clause='close is seen by the peer as a disconnect', inputs={}, detail='peer read %r then %r' % (first, eof)))
+        except OSError as ex:
+            fails.append(dict(clause='close is seen by the peer as a disconnect', inputs={}, detail='peer sees no end of stream: %r' % ex))
+        finally:
+            b.close()
+    # a server with several clients over TCP on the loopback interface
+    try:
+        s0 = socket.socket()
+        s0.bind(('127.0.0.1', 0))
+        portno = s0.getsockname()[1]
+        s0.close()
+        srv = PortServer('127.0.0.1', portno)
+    except OSError as ex:
+        srv = None
+        loopback = 'loopback TCP not available here: %r' % ex
+    if srv is not None:
+        loopback = 'ok'
+        n += 1
+    def server_part():
+        try:
+            clients, sent, got = [], [], []
+            for _ in range(3):
+                clients.append(connect('127.0.0.1', portno))      # the listen backlog is 1: let the server accept each one
+                t0 = time.time()
+                while len(srv.ports) < len(clients) and time.time() - t0 < 5:
+                    m = srv.poll()
+                    if m is not None:
+                        got.append(m)
+            for i, c in enumerate(clients):
+                for k in range(3):
+                    m = mido.Message('note_on', channel=i, note=k)
+                    c.send(m)
+                    sent.append(m)
+            clients[1].close()
+            t0 = time.time()
+            while len(got) < len(sent) and time.time() - t0 < 10:
+                m = srv.poll()
+                if m is not None:
+                    got.append(m)
+                else:
+                    time.sleep(0.005)
+            t1 = time.time()
+            extra = srv.poll()
+            if time.time() - t1 > 2:
+                fails.append(dict(clause='server poll does not block', inputs={}, detail='poll took %.1fs' % (time.time() - t1)))
+            if sorted(map(str, got)) != sorted(map(str, sent)) or extra is not None:
+                fails.append(dict(clause='server hands out the messages of all its clients', inputs={}, detail='got %r extra %r' % (got, extra)))
+            for ch in range(3):
+                if [m for m in got if m.channel == ch] != [m for m in sent if m.channel == ch]:
+                    fails.append(dict(clause='per-client order is kept by the server', inputs=dict(client=ch), detail=repr(got)))
+            srv.poll()
+            if any(p.closed for p in srv.ports) and len(srv.ports) == 3:
+                srv.poll()
+            if len([p for p in srv.ports if not p.closed]) != 2:
+                fails.append(dict(clause='a disconnected client is dropped by the server', inputs={}, detail=repr(srv.ports)))
+            for c in clients:
+                c.close()
+        except Exception as ex:     # noqa
+            fails.append(dict(clause='server fan-in', inputs={}, detail=repr(ex)))
+        finally:
+            srv.close()
+    if srv is not None:
+        wt = threading.Thread(target=server_part, daemon=True)
+        wt.start()
+        wt.join(60)
+        if wt.is_alive():
+            fails.append(dict(clause='a server port hands out messages without blocking forever', inputs={}, detail='PortServer.poll() / connect did not return within 60 s'))
+    # addresses
+    for host in ('', 'localhost', '127.0.0.1', 'a.b-c_d', 'h' * 300, 'ü', ' '):
+        for portno in (1, 2, 9, 10, 80, 8080, 65534, 65535):
+            n += 1
+            seen.add(('addr', host, portno))
+            try:
+                ok = parse_address(format_address(host, portno)) == (host, portno) and format_address(*parse_address('%s:%d' % (host, portno))) == '%s:%d' % (host, portno)
+                detail = format_address(host, portno)
+            except Exception as ex:   # noqa
+                ok, detail = False, repr(ex)
+            if not ok:
+                fails.append(dict(clause='format_address and parse_address are mutually inverse', inputs=dict(host=host, port=portno), detail=detail))
+    for bad in ('h:0', 'h:65536', 'h:-1', 'h', 'a:b:1', ':', 'h:x', 'h:1.5', ''):
+        n += 1
+        try:
+            r = parse_address(bad)
+            fails.append(dict(clause='malformed address raises ValueError', inputs=dict(address=bad), detail=repr(r)))
+        except ValueError:
+            pass
+    return dict(evaluations=n, distinct_nontrivial=len(seen), failures=fails[:20], loopback=loopback)
